@@ -411,7 +411,21 @@ func c05ScionGates(p *ana.Prog, r *ana.Result, fn *ssa.Function) []gateSpec {
 		return false, false
 	})})
 	// last layer is SCION/UDP or SCMP (the || of validType)
-	gs = append(gs, gateSpec{name: "last-layer-in-{UDP,SCMP}", gate: ana.FindGate(p, fn, "last-layer-in-{UDP,SCMP}", func(_ ana.Cmp, isCmp bool, v ssa.Value) (bool, bool) {
+	layerIs := func(which string) *ana.Gate {
+		return ana.FindGate(p, fn, "last-layer=="+which, func(c ana.Cmp, isCmp bool, _ ssa.Value) (bool, bool) {
+			if !isCmp || !layerCmp(c, which) {
+				return false, false
+			}
+			switch c.Op {
+			case token.EQL:
+				return true, true
+			case token.NEQ:
+				return true, false
+			}
+			return false, false
+		})
+	}
+	gs = append(gs, gateSpec{name: "last-layer-in-{UDP,SCMP}", gate: ana.Union("last-layer-in-{UDP,SCMP}", layerIs("LayerTypeSCIONUDP"), layerIs("LayerTypeSCMP"), ana.FindGate(p, fn, "last-layer-in-{UDP,SCMP}", func(_ ana.Cmp, isCmp bool, v ssa.Value) (bool, bool) {
 		ph, ok := v.(*ssa.Phi)
 		if !ok {
 			return false, false
@@ -441,7 +455,7 @@ func c05ScionGates(p *ana.Prog, r *ana.Result, fn *ssa.Function) []gateSpec {
 			n++
 		}
 		return n == 2, true
-	})})
+	}))})
 	// last layer != SCMP
 	gs = append(gs, gateSpec{name: "last-layer-not-SCMP", gate: ana.FindGate(p, fn, "last-layer-not-SCMP", func(c ana.Cmp, isCmp bool, _ ssa.Value) (bool, bool) {
 		if !isCmp || !layerCmp(c, "LayerTypeSCMP") {
